@@ -239,6 +239,10 @@ func simulateFormatter(c *Ctx, f, exprFmt *ssa.Function, kindFmt map[string]*ssa
 			if r, ok := phis[x]; ok {
 				return r
 			}
+		case *ssa.Parameter:
+			if r, ok := phis[x]; ok {
+				return r
+			}
 		case *ssa.UnOp:
 			if x.Op == token.NOT {
 				r := evalBool(x.X, phis)
@@ -325,33 +329,53 @@ func simulateFormatter(c *Ctx, f, exprFmt *ssa.Function, kindFmt map[string]*ssa
 	var results []string
 	why := ""
 	nPaths := 0
-	var dfs func(b, prev *ssa.BasicBlock, phis map[ssa.Value]int, visits map[*ssa.BasicBlock]int, ev string)
-	dfs = func(b, prev *ssa.BasicBlock, phis map[ssa.Value]int, visits map[*ssa.BasicBlock]int, ev string) {
+	isFormatter := func(g *ssa.Function) bool {
+		if g == exprFmt {
+			return true
+		}
+		for _, kf := range kindFmt {
+			if g == kf {
+				return true
+			}
+		}
+		return false
+	}
+	// exec runs block b from instruction index `from`; cont is what happens when the current function returns
+	// (the rest of the caller for inlined helpers, recording the path for the formatter itself).
+	var exec func(b, prev *ssa.BasicBlock, from int, phis map[ssa.Value]int, visits map[*ssa.BasicBlock]int, ev string, depth int, cont func(ev string))
+	exec = func(b, prev *ssa.BasicBlock, from int, phis map[ssa.Value]int, visits map[*ssa.BasicBlock]int, ev string, depth int, cont func(ev string)) {
 		if why != "" {
 			return
 		}
-		if visits[b] >= 2 {
-			return // loop unrolled twice is enough to see the per-operand pattern
-		}
-		nPaths++
-		if nPaths > 20000 {
-			why = "too many paths to explore"
-			return
-		}
-		v2 := map[*ssa.BasicBlock]int{}
-		for k, n := range visits {
-			v2[k] = n
-		}
-		v2[b]++
-		p2 := map[ssa.Value]int{}
-		for k, n := range phis {
-			// a new loop iteration re-evaluates every non-phi condition: assumptions made for them do not carry over
-			if _, isPhi := k.(*ssa.Phi); !isPhi && visits[b] >= 1 {
-				continue
+		v2 := visits
+		p2 := phis
+		if from == 0 {
+			if visits[b] >= 2 {
+				return // loop unrolled twice is enough to see the per-operand pattern
 			}
-			p2[k] = n
+			nPaths++
+			if nPaths > 40000 {
+				why = "too many paths to explore"
+				return
+			}
+			v2 = map[*ssa.BasicBlock]int{}
+			for k, n := range visits {
+				v2[k] = n
+			}
+			v2[b]++
+			p2 = map[ssa.Value]int{}
+			for k, n := range phis {
+				// a new loop iteration re-evaluates every non-phi condition: assumptions made for them do not carry over
+				if _, isPhi := k.(*ssa.Phi); !isPhi && visits[b] >= 1 {
+					if _, isParam := k.(*ssa.Parameter); !isParam {
+						continue
+					}
+				}
+				p2[k] = n
+			}
 		}
-		for _, ins := range b.Instrs {
+		for idx := from; idx < len(b.Instrs); idx++ {
+			ins := b.Instrs[idx]
 			switch x := ins.(type) {
 			case *ssa.Phi:
 				if prev != nil {
@@ -362,17 +386,15 @@ func simulateFormatter(c *Ctx, f, exprFmt *ssa.Function, kindFmt map[string]*ssa
 					}
 				}
 			case *ssa.Return:
-				results = append(results, ev)
+				cont(ev)
 				return
 			case *ssa.Panic:
 				return
 			case *ssa.If:
 				r := evalBool(x.Cond, p2)
 				if r < 0 {
-					// an unknown condition keeps the value assumed for it earlier on this path: the same SSA value, or a
-					// call of the same module function with the same arguments (a pure predicate evaluated twice)
 					k := condKey(x.Cond)
-					if a, ok := p2[k]; ok {
+					if a, ok := p2[k]; ok && a >= 0 {
 						r = a
 					} else {
 						pT := map[ssa.Value]int{}
@@ -381,29 +403,65 @@ func simulateFormatter(c *Ctx, f, exprFmt *ssa.Function, kindFmt map[string]*ssa
 							pT[kk], pF[kk] = n, n
 						}
 						pT[k], pF[k] = 1, 0
-						dfs(b.Succs[0], b, pT, v2, ev)
-						dfs(b.Succs[1], b, pF, v2, ev)
+						exec(b.Succs[0], b, 0, pT, v2, ev, depth, cont)
+						exec(b.Succs[1], b, 0, pF, v2, ev, depth, cont)
 						return
 					}
 				}
 				if r != 0 {
-					dfs(b.Succs[0], b, p2, v2, ev)
+					exec(b.Succs[0], b, 0, p2, v2, ev, depth, cont)
 				}
 				if r != 1 {
-					dfs(b.Succs[1], b, p2, v2, ev)
+					exec(b.Succs[1], b, 0, p2, v2, ev, depth, cont)
 				}
 				return
 			case *ssa.Jump:
-				dfs(b.Succs[0], b, p2, v2, ev)
+				exec(b.Succs[0], b, 0, p2, v2, ev, depth, cont)
 				return
+			case *ssa.Call:
+				// a helper of the formatter package that is not itself a formatter of a kind: inline it
+				if g := calleeFunc(&x.Call); g != nil && !isFormatter(g) && c.w.pkgPathOf(g) == pkgParser && g.Blocks != nil && depth < 2 && writesOrFormats(g, isFormatter) {
+					env := map[ssa.Value]int{}
+					for k, par := range g.Params {
+						if k < len(x.Call.Args) {
+							if bt, ok := par.Type().Underlying().(*types.Basic); ok && bt.Info()&types.IsBoolean != 0 {
+								env[par] = evalBool(x.Call.Args[k], p2)
+							}
+						}
+					}
+					bb, nextIdx, pp, vv := b, idx+1, p2, v2
+					exec(g.Blocks[0], nil, 0, env, map[*ssa.BasicBlock]int{}, ev, depth+1, func(ev2 string) {
+						exec(bb, prev, nextIdx, pp, vv, ev2, depth, cont)
+					})
+					return
+				}
+				ev += eventOf(ins)
 			default:
 				ev += eventOf(ins)
 			}
 		}
 	}
-	dfs(f.Blocks[0], nil, map[ssa.Value]int{}, map[*ssa.BasicBlock]int{}, "")
+	exec(f.Blocks[0], nil, 0, map[ssa.Value]int{}, map[*ssa.BasicBlock]int{}, "", 0, func(ev string) { results = append(results, ev) })
 	return results, why
 }
+
+// writesOrFormats: g (a helper) writes to the output or calls a formatter, directly.
+func writesOrFormats(g *ssa.Function, isFormatter func(*ssa.Function) bool) bool {
+	found := false
+	allInstrs(g, func(i ssa.Instruction) {
+		if call, ok := i.(*ssa.Call); ok {
+			if f := calleeFunc(&call.Call); f != nil && isFormatter(f) {
+				found = true
+			}
+			switch calleeName(&call.Call) {
+			case "(*strings.Builder).WriteString", "(*strings.Builder).WriteByte", "(*strings.Builder).WriteRune", "fmt.Fprintf", "fmt.Fprint":
+				found = true
+			}
+		}
+	})
+	return found
+}
+
 
 func c10Quote(c *Ctx, kindFmt map[string]*ssa.Function) {
 	const rule = "C10.quote"
